@@ -397,7 +397,7 @@ func runFsCall(pool *wproto.Pool, s *fsState, c *tok.Conc, massive, alias bool) 
 			rq.Items = append(rq.Items, wproto.Item{D: it.D, N: c.Seq(it.N)})
 		}
 		// the same tree has usually been used before: what an earlier operation did to it must not matter
-		rq.PreOps = [][]string{nil, {"output"}, {"walk"}, {"json", "walkiter"}, {"massive-output"}, {"mkdir-elsewhere"}, {"mkdir-elsewhere", "output"}}[s.N%7]
+		rq.PreOps = [][]string{nil, {"output"}, {"walk"}, {"json", "walkiter"}, {"massive-output"}, {"mkdir-elsewhere"}, {"mkdir-elsewhere", "output"}, {"dry-color"}}[s.N%8]
 	} else {
 		rq.Doc = canonItemsDoc(s.Items, c)
 	}
